@@ -18,7 +18,8 @@ RULE = ("product of PDO kind/number {RPDO,TPDO} x {1,4,5,512} x optional sub-ent
         "only} x prior device state {blank+invalid, valid with 1 other mapping, valid with 8 mappings} x COB-ID {0x181, 0x7FF, "
         "0x800, 0x1FFFFFFF, 1} x enabled x rtr_allowed x transmission type {0,1,240,252,253,254,255} x timers {absent, 0, max} "
         "x mapping {sequences of length <= 2 over 3 objects, 64-bit object, 8 x 8 bits, empty}; source: live device, "
-        "dictionary values (DCF), dictionary defaults; history: save, modify, save again; node level (node.pdo/rpdo/tpdo "
+        "dictionary values (DCF), dictionary defaults; history: save, modify, save again; save refused by the device at its "
+        "k-th write (every k) and repeated unchanged; node level (node.pdo/rpdo/tpdo "
         ".save over 8 maps): every map x every mapping incl. empty x enabled/disabled over three prior-state assignments. state = (configuration, device "
         "state, write step); non-trivial = cases with a valid prior device state or a second save")
 ASSUMPTIONS = [
@@ -97,6 +98,10 @@ def cases(tier, seed):
             out.append({"part": "from-od", "subs": subs, "src": src})
     for subs in ("all", "gap"):
         out.append({"part": "history", "subs": subs})
+    for prior in ("blank", "valid1", "valid8"):
+        for kind in ("tpdo", "rpdo"):
+            out.append({"part": "save-retry", "subs": "all", "kind": kind, "prior": prior})
+    out.append({"part": "save-retry", "subs": "none", "kind": "tpdo", "prior": "valid1"})
     for subs in SUBSETS:
         for rm in range(0, len(MAPPINGS), 1 if tier == "thorough" else 3):
             out.append({"part": "node-level", "subs": subs, "rots": [[rm, 0], [rm, 1]], "loadcfg": rm == 0})
@@ -153,7 +158,7 @@ def ordering_problems(dev, com, mapi, enabled, n_map):
     return probs
 
 
-def one_save(case, st, od, dev, kind, num, com, mapi, cfg, rc, read_first=True, node=None):
+def one_save(case, st, od, dev, kind, num, com, mapi, cfg, rc, read_first=True, node=None, reconfigure=True):
     cob, enabled, rtr, tt, timers, mp = cfg
     if node is None:
         net, n = mknode(od, dev)
@@ -166,11 +171,12 @@ def one_save(case, st, od, dev, kind, num, com, mapi, cfg, rc, read_first=True, 
         if read_first:
             m.read()
         dev.log.clear()
-        m.cob_id, m.enabled, m.rtr_allowed, m.trans_type = cob, enabled, rtr, tt
-        m.inhibit_time, m.event_timer, m.sync_start_value = timers
-        m.clear()
-        for (i, s, l) in mp:
-            m.add_variable(i, s, l)
+        if reconfigure:
+            m.cob_id, m.enabled, m.rtr_allowed, m.trans_type = cob, enabled, rtr, tt
+            m.inhibit_time, m.event_timer, m.sync_start_value = timers
+            m.clear()
+            for (i, s, l) in mp:
+                m.add_variable(i, s, l)
         m.save()
     except Exception as e:  # noqa: BLE001
         st.violation(f"C09:save-raises:{type(e).__name__}:{(dev.refused[-1:] or [[0, 0, 0, 'no refusal']])[0][3]}", rc,
@@ -427,7 +433,58 @@ def run_node_level(case, st):
         st.violation(f"C09:load-configuration:raises:{type(e).__name__}", case, "configuration loaded", repr(e)[:120])
 
 
+def run_save_retry(case, st):
+    """save() is refused by the device at its k-th write (every k); the application calls save() again on the same,
+    untouched PdoMap: the second save must follow the safe procedure and the device must end up with the configuration."""
+    import canopen
+    subs = SUBSETS[case["subs"]]
+    od = mkod(subs)
+    kind, prior = case["kind"], case["prior"]
+    com = 0x1800 if kind == "tpdo" else 0x1400
+    mapi = com + 0x200
+    cfgs = [(0x181, True, True, 255, (None, None, None), MAPPINGS[4]), (0x7FF, True, False, 1, (0, 0, 0), MAPPINGS[1]),
+            (0x181, False, True, 254, (None, None, None), MAPPINGS[2]), (0x1FFFFFFF, True, True, 255, (0xFFFF, 0xFFFF, 0xFF), [BIG]),
+            (0x181, True, True, 255, (None, None, None), [])]
+    if "cfg" in case:
+        c = case["cfg"]
+        cfgs = [(c[0], c[1], c[2], c[3], tuple(c[4]), [tuple(x) for x in c[5]])]
+    for cfg in cfgs:
+        cob, enabled, rtr, tt, timers, mp = cfg
+        timers = tuple(t if s_ in subs else None for t, s_ in zip(timers, (3, 5, 6)))
+        cfg = (cob, enabled, rtr, tt, timers, mp)
+        for k in ([case["k"]] if "k" in case else range(1, 16)):
+            dev = StrictPdoDevice(com, mapi, subs, prior, abort_cls=canopen.SdoAbortedError)
+            net, n = mknode(od, dev)
+            m = getattr(n, kind)[1]
+            rc = dict(case, cfg=[cob, enabled, rtr, tt, list(timers), [list(x) for x in mp]], k=k)
+            try:
+                m.read()
+                m.cob_id, m.enabled, m.rtr_allowed, m.trans_type = cob, enabled, rtr, tt
+                m.inhibit_time, m.event_timer, m.sync_start_value = timers
+                m.clear()
+                for (i, s, l) in mp:
+                    m.add_variable(i, s, l)
+                dev.ndl, dev.fail_at = 0, k
+                try:
+                    m.save()
+                    failed = False
+                except canopen.SdoAbortedError:
+                    failed = True
+            except Exception as e:  # noqa: BLE001
+                st.violation(f"C09:save-retry:first-save-raises:{type(e).__name__}", rc, "SdoAbortedError or success", repr(e)[:100])
+                continue
+            if not failed:
+                break                      # save() has fewer than k writes: every position was covered
+            st.nontrivial_n += 1
+            dev.refused.clear()
+            one_save(case, st, od, dev, kind, 1, com, mapi, cfg, dict(rc, retry=True), read_first=False, node=(net, n),
+                     reconfigure=False)
+    st.sample({"save-retry": case}, cap=3)
+
+
 def run_case(case, st):
+    if case["part"] == "save-retry":
+        return run_save_retry(case, st)
     {"live": run_live, "from-od": run_from_od, "history": run_history, "node-level": run_node_level}[case["part"]](case, st)
 
 
